@@ -69,6 +69,10 @@ type Config struct {
 	// marshaler (the configuration of TestNilValues: ValuesLike=nil, values are
 	// not retrievable after a reload, only membership is)
 	RegisteredTypes bool
+	// MarshalNL: the user marshaler is a json.Encoder (its output ends in a newline), v1marshaler only
+	MarshalNL bool
+	// MinEntries: when versions (subsets of the universe) are enumerated, only those with at least this many entries
+	MinEntries int
 	// MaxDepth bounds the search depth for this configuration (0 = closure)
 	MaxDepth int
 	// InMemory: start from mast.NewInMemory() (no store, bf 16)
